@@ -39,12 +39,13 @@ def _mods():
 @st.composite
 def networks(draw, tier="quick"):
     nmax = 9 if tier == "thorough" else 7
-    family = draw(st.sampled_from(["uniform", "uniform", "trap", "dense-pairs"]))
+    family = draw(st.sampled_from(["uniform", "uniform", "trap", "dense-pairs", "dag-negative", "dag-negative", "tight"]))
     if family == "trap":
         # cheapest path s-a-b-t; detours s~>b and a~>t are dearer; demand 2 forces cancelling a->b
         l1 = draw(st.integers(1, 2))
         l2 = draw(st.integers(1, 2))
-        arcs = [[0, 1, 1, draw(st.integers(0, 1))], [1, 2, 1, draw(st.integers(0, 1))], [2, 3, 1, draw(st.integers(0, 1))]]
+        k = draw(st.sampled_from([1, 1, 2, 3]))  # multi-unit main path: a later augmentation cancels only part of its flow
+        arcs = [[0, 1, k, draw(st.integers(0, 1))], [1, 2, k, draw(st.integers(0, 1))], [2, 3, k, draw(st.integers(0, 1))]]
         nxt, prev = 4, 0
         for _ in range(l1):
             arcs.append([prev, nxt, draw(st.integers(1, 2)), draw(st.integers(1, 4))])
@@ -60,9 +61,26 @@ def networks(draw, tier="quick"):
             if u != v:
                 arcs.append([u, v, c, w])
         s, t = 0, 3
+    elif family == "dag-negative":
+        # acyclic network: any integer costs (zero and negative included) are free of negative cycles; routes whose cost
+        # is exactly 0 or negative, found in a late Bellman-Ford pass / pivot, are common here
+        n = draw(st.integers(3, min(nmax, 6)))
+        m = draw(st.integers(2, 10))
+        arcs = []
+        for _ in range(m):
+            u = draw(st.integers(0, n - 2))
+            v = draw(st.integers(u + 1, n - 1))
+            arcs.append([u, v, draw(st.integers(1, 3)), draw(st.integers(-3, 4))])
+        s, t = 0, n - 1
+        if draw(st.integers(0, 3)) == 0:
+            s = draw(st.integers(0, n - 2))
+            t = draw(st.integers(s + 1, n - 1))
     else:
         n = draw(st.integers(2, nmax))
         m = draw(st.integers(1, 16))
+        if family == "tight":  # few arcs, small capacities: supplies built from saturating flows (saturated-everything instances)
+            n = draw(st.integers(3, 5))
+            m = draw(st.integers(3, 7))
         if family == "dense-pairs":
             n = min(n, 4)
         arcs = [
@@ -74,7 +92,7 @@ def networks(draw, tier="quick"):
         t = draw(st.integers(0, n - 2))
         if t >= s:
             t += 1
-    if draw(st.integers(0, 2)) == 0:  # negative costs without negative cycles: shift by node potentials
+    if family != "dag-negative" and draw(st.integers(0, 2)) == 0:  # negative costs without negative cycles: shift by node potentials
         pot = draw(st.lists(st.integers(0, 4), min_size=n, max_size=n))
         arcs = [[u, v, c, w + pot[u] - pot[v]] for u, v, c, w in arcs]
     if draw(st.booleans()):  # half of the cases without parallel arcs (network_simplex's dict can then be checked fully)
@@ -89,8 +107,8 @@ def networks(draw, tier="quick"):
     arcs = [list(a) for a in draw(st.permutations(arcs))]
     return {
         "family": family, "n": n, "arcs": arcs, "s": perm[s], "t": perm[t], "scheme": draw(st.integers(0, 4)), "demand_off": draw(st.integers(-3, 2)), "supply_seed": draw(st.lists(st.integers(-3, 3), min_size=n, max_size=n)),
-        "supply_mode": draw(st.sampled_from(["from-flow", "from-flow", "random"])),
-        "flow_seed": draw(st.lists(st.integers(0, 4), min_size=len(arcs), max_size=len(arcs))),
+        "supply_mode": "from-flow" if family == "tight" else draw(st.sampled_from(["from-flow", "from-flow", "random"])),
+        "flow_seed": draw(st.lists(st.sampled_from([4, 4, 4, 0, 1, 2]) if family == "tight" else st.integers(0, 4), min_size=len(arcs), max_size=len(arcs))),
     }
 
 
@@ -351,8 +369,8 @@ def run_assignment(desc, ctx):
 
 
 SUBS = [
-    Sub("min_cost_flow", run_mcf, strategy=lambda tier: networks(tier), quick=700, thorough=6000, workers_quick=3),
-    Sub("network_simplex", run_ns, strategy=lambda tier: networks(tier), quick=700, thorough=6000, workers_quick=3),
-    Sub("shared_instances", run_shared, strategy=lambda tier: networks(tier), quick=500, thorough=4000, workers_quick=3),
-    Sub("solve_assignment", run_assignment, strategy=lambda tier: matrices(tier), quick=500, thorough=4000, workers_quick=2),
+    Sub("min_cost_flow", run_mcf, strategy=lambda tier: networks(tier), quick=3000, thorough=8000, workers_quick=4),
+    Sub("network_simplex", run_ns, strategy=lambda tier: networks(tier), quick=4000, thorough=10000, workers_quick=4),
+    Sub("shared_instances", run_shared, strategy=lambda tier: networks(tier), quick=2000, thorough=6000, workers_quick=4),
+    Sub("solve_assignment", run_assignment, strategy=lambda tier: matrices(tier), quick=800, thorough=4000, workers_quick=2),
 ]
